@@ -73,6 +73,11 @@ var c20Programs = [][3]string{
 // everything up to a limit works, beyond it an ordinary runtime error, prior output kept.
 func VHC20Boundaries() {
 	c := c20Programs[vh.Choose("case", len(c20Programs))]
+	if vh.Choose("afterfuzz", 2) == 1 {
+		// the limits are the same after an evaluation in fuzzing mode (which has limits of its own)
+		var sink vh.Out
+		_, _ = lang.EvalProgram("function f(n) { if (n > 0) return f(n - 1)\nreturn 0 }\nBEGIN { x = f(3) }", nil, nil, &sink, true)
+	}
 	out, k := runProg(c[0], map[string]any{})
 	vh.Reach("boundary program evaluated")
 	if c[1] == "ok" {
